@@ -8,7 +8,7 @@
    plan lines:
      OPT <level>
      SCAN <file.mir>
-     LOADLINK interp|gen|lazy
+     LOADLINK interp|gen|lazy|lazybb
      SNAP <tag>             print "T <tag> <func> <hash>" for every function item, remember first text
      CHECKTEXT <tag>        compare every function with its first remembered text
      GEN <func>
@@ -47,9 +47,11 @@ static void MIR_NO_RETURN err_func (MIR_error_type_t t, const char *fmt, ...) {
 
 static int64_t acc;
 static void ext_log (int64_t v) { acc = acc * 1000003 + v + 1; }
+static void ext_inc (int64_t *p) { *p += 1; } /* the address of a local escapes to here */
 static char dummy_target[64];
 static void *resolver (const char *name) {
   if (strcmp (name, "ext_log") == 0) return (void *) ext_log;
+  if (strcmp (name, "ext_inc") == 0) return (void *) ext_inc;
   void *a = dlsym (RTLD_DEFAULT, name);
   return a != NULL ? a : (void *) dummy_target;
 }
@@ -237,6 +239,8 @@ int main (int argc, char **argv) {
         MIR_link (ctx, MIR_set_gen_interface, resolver);
       else if (strcmp (w[1], "lazy") == 0)
         MIR_link (ctx, MIR_set_lazy_gen_interface, resolver);
+      else if (strcmp (w[1], "lazybb") == 0)
+        MIR_link (ctx, MIR_set_lazy_bb_gen_interface, resolver);
       else
         MIR_link (ctx, MIR_set_interp_interface, resolver);
       printf ("LINKED %s\n", w[1]);
